@@ -28,6 +28,8 @@ func c07(c *Ctx) {
 	c07R4(c, "R4")
 	c07R5(c, "R5")
 	c07R6(c, "R6")
+	c05R1(c, "R6/C05.R1")
+	sQuorum(c, "R6/S-QUORUM")
 	c07R7(c, "R7")
 }
 
